@@ -78,8 +78,10 @@ package logical
 
 // Whether the block is already on chain: reads the chain and may answer the proposer; it does not touch the
 // share sets.
+//@ spec abstract fn blockAlreadyOnChain(r Int) bool
 //@ func round0.checkBlockExisted
 //@   option trusted
+//@   ensures (result != nil) == blockAlreadyOnChain(ref(r))
 //@   modifies nothing
 
 //@ func round1.Update
@@ -92,6 +94,9 @@ package logical
 //@   # a block share is counted only together with the sender's beacon share (unless the beacon value is already recovered)
 //@   ensures [pair]   forall k string :: has(r.gSignGenerator.witnessSignMap, k) && !old(has(r.gSignGenerator.witnessSignMap, k)) ==> has(r.rSignGenerator.witnessSignMap, k) || old(sigValid(r.rSignGenerator.groupSign))
 //@   ensures [keep]   forall k string :: old(has(r.gSignGenerator.witnessSignMap, k)) ==> has(r.gSignGenerator.witnessSignMap, k) && r.gSignGenerator.witnessSignMap[k] == old(r.gSignGenerator.witnessSignMap[k])
+//@   # garbage is ignored, not escalated: an error ends the whole signing party (the block would never finalise on this
+//@   # node), so a verify message - whatever its signer, hash, share or beacon share - may only be dropped silently
+//@   ensures [tolerant] result != nil ==> !istype(msg, *model.ConsensusVerifyMessage) || blockAlreadyOnChain(ref(r.round0))
 
 // The lottery value of a proof is the first 32 bytes of the 80-byte proof: it is only taken after the proof has
 // been padded back to 80 bytes (header transport drops leading zero bytes).
